@@ -24,6 +24,7 @@ namespace verif
         std::size_t  region    = std::size_t(1) << 31; // 2 GiB of address space, untouched pages cost nothing
         std::size_t  bump      = 1 << 16;
         std::size_t  gap       = 0;                    // bytes left between consecutive blocks
+        std::size_t  skew      = 0;                    // blocks asked with alignment <= skew start at an address = skew (mod 2*skew)
         long         calls     = 0;                    // allocation calls so far
         long         fail_at   = -1;                   // fail the allocation call with this index (1-based)
         long         fail_from = -1;                   // fail every allocation call from this index on
@@ -76,6 +77,7 @@ namespace verif
             }
             std::size_t al = align < 16 ? 16 : align;
             bump = (bump + gap + al - 1) & ~(al - 1);
+            if (skew && align <= skew) bump += skew;
             if (bump + size > region - (2 << 20)) { std::fprintf(stderr, "upstream region exhausted\n"); std::exit(3); }
             std::size_t o = bump; bump += size;
             blocks.push_back({o, size, align, true});
